@@ -1503,6 +1503,8 @@ pub fn run(tier: &str, seed: u64, em: &mut Emitter) {
             }
         }
     }
+    // the content clause through the derive model (schemas regenerated from the source)
+    crate::c18_schema::run(tier, seed, em);
     // a few non-object Raw texts
     for text in ["null", "5", "\"str\"", "[1,2]", " {} ", "{\"a\":1,\"a\":2}", "{\"a\":{\"b\":[ 1 , 2 ]}}"] {
         for field in ["a", "b"] {
@@ -1540,6 +1542,7 @@ pub fn replay(case: &Sx) -> Option<Sx> {
             let (target, text) = (target.as_string()?, text.as_string()?);
             Some(guarded(move || run_robust(&target, &text)))
         }
+        (4, [kind, ty, content]) => crate::c18_schema::replay(kind, ty, content),
         _ => None,
     }
 }
